@@ -359,7 +359,7 @@ static void configs(report& r, bool thorough)
     for (int tgt = 0; tgt != 2; ++tgt)
     {
         if (tgt == 1 && lists[li].size() < 3) continue;
-        if (K >= 3 && (dist == 1 || tgt == 1 || fn != 1 || li % 2 == 0)) continue;    // the two extra multi-channel shapes: a subset
+        if (K >= 3 && ((dist == 1 && K == 4) || tgt == 1 || fn != 1 || li % 2 == 0)) continue;    // the two extra multi-channel shapes: a subset
         if (fn == 2 && (tgt == 1 || li % 2 == 1)) continue;                            // non-finite values: half of the lists, no target
         T const target = tgt ? T(0.35L) : T();
         auto run_world = [&](int world, int order_mode) {
